@@ -27,6 +27,11 @@ package controlsvc
 //@   modifies nothing
 //@   ensures result != nil
 
+// a connected socket has a remote address (net.Conn.RemoteAddr of the accepted connection)
+//@ iface ControlFuncOperations.RemoteAddr
+//@   params cfo
+//@   modifies nothing
+//@   ensures HASADDR: result != nil
 //@ iface ControlCommandType.InitFromString
 //@   params ct, params
 //@   ensures PAIR: result.1 == nil ==> result.0 != nil
